@@ -734,13 +734,12 @@ Definition str_chars (k : akind) (c : content) : option (list datum) :=
   | _ => None
   end.
 
-(* fragment of Theorem tojson_value_partial: 1-d numeric leaves, the three list classes, IndexedArray,
-   the option classes, UnmaskedArray, records and tuples (also named: __record__), unions, EmptyArray,
-   strings and bytestrings in the shape validityerror accepts; no n-d NumpyArray, no other __array__ value *)
+(* fragment of Theorem tojson_value_partial: every node class; the only restriction is on the __array__
+   parameter: absent, or string / bytestring in the shape validityerror accepts (so no categorical, and no
+   char / byte tag outside a string) *)
 Fixpoint frag15 (c : content) : bool :=
   match c with
-  | Numpy _ [_] _ => true
-  | Numpy _ _ _ => false
+  | Numpy _ _ _ => true
   | Empty => true
   | ListOffset _ _ c' | ListA _ _ _ c' | Regular c' _ _ | Indexed _ _ c' | IndexedOption _ _ c'
   | ByteMasked _ _ c' | BitMasked _ _ _ _ c' | Unmasked c' => frag15 c'
@@ -748,4 +747,16 @@ Fixpoint frag15 (c : content) : bool :=
       (fix all (l : list content) : bool := match l with [] => true | x :: xs => frag15 x && all xs end) cs
   | Par None _ c' => frag15 c'
   | Par (Some k) _ c' => match str_chars k c' with Some d => forallb byte_datum d | None => false end
+  end.
+
+(* uint8 buffers hold bytes: always so in the implementation; a hypothesis only because the model's
+   buffers are unbounded integers *)
+Fixpoint bytes_ok (c : content) : bool :=
+  match c with
+  | Numpy DUInt8 _ data => forallb byte_datum data
+  | Numpy _ _ _ | Empty => true
+  | ListOffset _ _ c' | ListA _ _ _ c' | Regular c' _ _ | Indexed _ _ c' | IndexedOption _ _ c'
+  | ByteMasked _ _ c' | BitMasked _ _ _ _ c' | Unmasked c' | Par _ _ c' => bytes_ok c'
+  | Union _ _ _ cs | Record cs _ _ =>
+      (fix all (l : list content) : bool := match l with [] => true | x :: xs => bytes_ok x && all xs end) cs
   end.
